@@ -363,6 +363,7 @@ func c40RunStress(c c40StressCase) (V, Verdict) {
 	}
 	var inFlight sync.Map // goroutine index -> name of the call it is in
 	var calls atomic.Int64
+	var panicked atomic.Value
 	stop := make(chan struct{})
 	var wg sync.WaitGroup
 	do := func(w int, name string, f func()) {
@@ -407,6 +408,11 @@ func c40RunStress(c c40StressCase) (V, Verdict) {
 		wg.Add(1)
 		go func() {
 			defer wg.Done()
+			defer func() {
+				if p := recover(); p != nil {
+					panicked.Store(fmt.Sprint(p))
+				}
+			}()
 			r := NewRand(c.Seed*1000003 + uint64(w))
 			track, _ := webrtc.NewTrackLocalStaticSample(webrtc.RTPCodecCapability{MimeType: webrtc.MimeTypeVP8},
 				fmt.Sprintf("v%d", w), fmt.Sprintf("s%d", w))
@@ -538,6 +544,9 @@ func c40RunStress(c c40StressCase) (V, Verdict) {
 				verdict = Fail("call-never-returns:Close", "GracefulClose of the answerer did not return within 30 s")
 			}
 		}
+	}
+	if p, ok := panicked.Load().(string); ok && verdict.OK {
+		verdict = Fail("panic-under-concurrent-use", p)
 	}
 	if verdict.OK {
 		verdict.Key = fmt.Sprintf("%d/%d/%d", c.Workers, c.Rounds, c.Seed)
